@@ -9,6 +9,7 @@ import (
 
 // Compute the RIB chnages for this neighbor
 func (dv *Router) ribUpdate(ns *table.NeighborState) {
+	verifGate(dv, "ribUpdate", ns)
 	dv.mutex.Lock()
 	defer dv.mutex.Unlock()
 
@@ -62,6 +63,7 @@ func (dv *Router) ribUpdate(ns *table.NeighborState) {
 
 // Check for dead neighbors
 func (dv *Router) checkDeadNeighbors() {
+	verifGate(dv, "deadcheck", nil)
 	dv.mutex.Lock()
 	defer dv.mutex.Unlock()
 
